@@ -81,6 +81,7 @@ def r2(ctx, F):
     comps = fl.calls_to('std::path::Path::components')
     nexts = fl.calls_to('std::iter::Iterator::next')
     heads = set(cfg.loops().keys())
+    pred_ok = set()
     for sb in somes:
         c_abs = False
         for ab, at in abss:
@@ -96,8 +97,26 @@ def r2(ctx, F):
             from_comps = any(o.kind == 'call' and o.key == 'std::path::Path::components' for o in io)
             if from_comps and fl.guarded_by(sb, nb, 'None'):
                 c_loop = True
+        # the same test written with an iterator predicate: components(rel).any(|c| bad(c)) == false, or .all(|c| good(c)) == true
+        for qb, qt in fl.calls(lambda c: c in ('std::iter::Iterator::any', 'std::iter::Iterator::all')):
+            io = fl.origins(qt['args'][0])
+            if not any(o.kind == 'call' and o.key == 'std::path::Path::components' for o in io):
+                continue
+            is_any = callee(qt).endswith('any')
+            oc = fl.outcomes(qb)
+            es = oc.get('false' if is_any else 'true', set())
+            if not (es and cfg.edges_guard(es, sb)):
+                continue
+            # the predicate closure decides the dangerous variants the right way round
+            for o in fl.origins(qt['args'][1]):
+                cb_ = F.body(o.key) if o.kind == 'agg' else None
+                if cb_ is None:
+                    continue
+                if all(closure_variant_results(cb_, v) == {1 if is_any else 0} for v in ('ParentDir', 'RootDir', 'Prefix')):
+                    c_loop = True
+                    pred_ok.add(qb)
         comp_src = all(all(o.kind == 'param' and o.key == rel_i for o in fl.origins(ct['args'][0])) for cb, ct in comps) and bool(comps)
-        ctx.check(c_loop and comp_src, 'C11.R2', 'safe_join:all-components', 'Some only after the loop over components(rel) is exhausted',
+        ctx.check(c_loop and comp_src, 'C11.R2', 'safe_join:all-components', 'Some only after every component of rel was examined (loop exhausted / any()==false / all()==true)',
                   'safe_join can return Some without having examined every component of the request path', term_loc(b, sb))
         # value
         vo = set()
@@ -130,6 +149,10 @@ def r2(ctx, F):
                         listed[v] = tgt
                     for v, name in vmap.items():
                         found[name] = listed.get(v, t['otherwise'])
+    if not found and pred_ok:
+        for name in ('ParentDir', 'RootDir', 'Prefix'):
+            ctx.ok('C11.R2', 'safe_join:%s->None' % name, 'component %s makes the iterator predicate refuse the path' % name, loc(b, b.lo))
+        return
     if not found:
         ctx.missing('C11.R2', 'safe_join: match on Component')
     for name in ('ParentDir', 'RootDir', 'Prefix'):
@@ -138,6 +161,32 @@ def r2(ctx, F):
         leaks = r & (set(somes) | heads)
         ctx.check(tgt is not None and not leaks, 'C11.R2', 'safe_join:%s->None' % name, 'component %s can only lead to None' % name,
                   'a path with a %s component is not refused by safe_join (the arm continues the loop or reaches Some)' % name, loc(b, b.lo))
+
+
+def closure_variant_results(cb, variant):
+    """{0/1}: the boolean constants a |c: Component| -> bool closure can return when c is `variant`"""
+    fl = flow_of(cb)
+    vmap = ENUMS["std::path::Component<'_>"]
+    want = [v for v, n in vmap.items() if n == variant]
+    out = set()
+    found = False
+    for bi in fl.cfg.reachable():
+        blk = cb.blocks[bi]
+        for st in blk['stmts']:
+            rv = st['rv']
+            if rv['k'] == 'discr' and 'Component' in cb.local_ty(rv['p']['l']):
+                t = blk['term']
+                if t['k'] != 'switch':
+                    continue
+                found = True
+                tg = dict((a, b_) for a, b_ in t['targets'])
+                for v in want:
+                    tgt = tg.get(v, t['otherwise'])
+                    for rb in fl.cfg.reach(tgt):
+                        for st2 in cb.blocks[rb]['stmts']:
+                            if st2['dst']['l'] == 0 and not st2['dst']['proj'] and st2['rv']['k'] == 'use' and st2['rv']['ops'][0]['k'] == 'const':
+                                out.add(int(bool(st2['rv']['ops'][0].get('v'))))
+    return out if found else set()
 
 
 def r34(ctx, F, hub):
